@@ -100,6 +100,7 @@ pub proof fn lemma_u128_split(v: u128)
         v as int == ((v >> 64) as u64) as int * two64() + (v as u64) as int,
         (v as u64) as int == v as int % two64(),
         ((v >> 64) as u64) as int == v as int / two64(),
+        v as nat == ((v >> 64) as u64) as nat * 0x1_0000_0000_0000_0000nat + (v as u64) as nat,
 {
     assert((v >> 64) < 0x1_0000_0000_0000_0000u128) by (bit_vector);
     assert(v == (v >> 64) * 0x1_0000_0000_0000_0000u128 + (v as u64) as u128) by (bit_vector);
